@@ -157,14 +157,14 @@ func reconstructAliasedMap(node *CandidateNode, context Context) error {
 				log.Debugf("an alias merge list!")
 				for index := len(valueNode.Content) - 1; index >= 0; index = index - 1 {
 					aliasNode := valueNode.Content[index]
-					err := applyAlias(node, aliasNode.Alias, index, context.ChildContext(newContent))
+					err := applyAlias(node, mergeSource(aliasNode), index, context.ChildContext(newContent))
 					if err != nil {
 						return err
 					}
 				}
 			} else {
 				log.Debugf("an alias merge!")
-				err := applyAlias(node, valueNode.Alias, index, context.ChildContext(newContent))
+				err := applyAlias(node, mergeSource(valueNode), index, context.ChildContext(newContent))
 				if err != nil {
 					return err
 				}
@@ -239,6 +239,15 @@ func explodeNode(node *CandidateNode, context Context) error {
 	}
 }
 
+// mergeSource is the map a merge key value (or an entry of a merge list) contributes:
+// what an alias stands for, or the map itself when it is written in place
+func mergeSource(value *CandidateNode) *CandidateNode {
+	if value.Kind == MappingNode {
+		return value
+	}
+	return value.Alias
+}
+
 func applyAlias(node *CandidateNode, alias *CandidateNode, aliasIndex int, newContent Context) error {
 	log.Debug("alias is nil ?")
 	if alias == nil {
@@ -257,10 +266,10 @@ func applyAlias(node *CandidateNode, alias *CandidateNode, aliasIndex int, newCo
 			var err error
 			if valueNode.Kind == SequenceNode {
 				for nested := len(valueNode.Content) - 1; nested >= 0 && err == nil; nested = nested - 1 {
-					err = applyAlias(node, valueNode.Content[nested].Alias, aliasIndex, newContent)
+					err = applyAlias(node, mergeSource(valueNode.Content[nested]), aliasIndex, newContent)
 				}
 			} else {
-				err = applyAlias(node, valueNode.Alias, aliasIndex, newContent)
+				err = applyAlias(node, mergeSource(valueNode), aliasIndex, newContent)
 			}
 			if err != nil {
 				return err
